@@ -23,11 +23,23 @@
         `hcodec`  inflate ∘ deflate = id;   `hH` the digest has a fixed size.
       Without `hkey` (an option missing from the payload: F4) and without `hcommit` (entries
       finalised by failed runs: F12) the statement is refuted by concrete two-run histories.
+
+  (C) about the ENCODING of the payload into the bytes that are hashed (`Gts/Model/KeyEnc.lean`:
+      io.go `exact` / `encodePayload`, strconv.QuoteToASCII, encoding/json on the payload shapes):
+      the quoted form of a string is pure ASCII and determines the string
+      (`quoteToASCII_ascii`, `quoteToASCII_injective`), the encoded payload determines the list of
+      tuples (`encodePayload_injective`), whereas marshalling the raw strings — the encoder before
+      1c2c272 — does not (`old_encoding_not_injective`, the witness of F32).  With that, `hkey` is
+      a CONSEQUENCE of three hypotheses that say one thing each (`hkey_of_parts`): the command body
+      is a function of the bytes of the primary input, it depends on the command line and the
+      secondary inputs only through the payload tuples, the digest does not collide on the
+      inputs and payloads in play.
 -/
 import Gts.Gen.Cli
 import Gts.Spec.CliTable
 import Gts.Model.CacheProto
 import Gts.Props.C13
+import Gts.Lemmas.KeyEncJson
 namespace Gts.C14
 open Gts.Cache Gts.CacheProto Gts.Gen.Cli Gts.CliTable
 
@@ -55,6 +67,17 @@ table): a dereferenced command-line variable, a `String()` text, a digest, the f
 a parsed value marshalled by its structure (`Joined` / `Ordered`, `Point` / `Between` would share
 a key: seeded change C14-f). -/
 theorem payload_value_forms : valueFormReport = [] := by decide
+
+/-- **Every payload value has one of the five kinds the encoding model covers** (generated table):
+string, `[]string`, bool, integer, `[]byte` (`Gts.KeyEnc.Kind`) — so `encodePayload_injective` below
+speaks about the payloads of all nineteen commands.  (A `float64`, a map or a struct handed to
+`encodePayload` is outside the model and shows up here.) -/
+theorem payload_value_kinds : valueKindReport = [] := by decide
+
+/-- the kinds that occur, e.g. `gts infix`: strings, a digest, a bool, the file type -/
+example : (commands.find? (·.name == "infix")).map (fun c => c.payload.map fun t => (t.key, valueKind c t)) =
+    some [("command", some .str), ("version", some .str), ("locator", some .str), ("host", some .bytes),
+      ("embed", some .bool), ("filetype", some .int)] := by decide
 
 /-- **No payload variable is re-ordered or overwritten in place** anywhere in its command
 (generated table: no use of a declared variable that reaches the payload sits in `sort.*`, `copy`,
@@ -364,5 +387,184 @@ example : Hyp (toyWorld true false) where
     intro c i h
     rcases c with ⟨a, b⟩
     cases b <;> simp_all [toyWorld, toyExec]
+
+/-! ## (C) the encoding of the payload -/
+
+section encoding
+open Gts.KeyEnc
+
+/-- **The quoted form is pure ASCII**: every byte of `strconv.QuoteToASCII(s)`, for an arbitrary
+byte string `s` (valid UTF-8 or not), is below 128 — so encoding/json copies or escapes it byte by
+byte and never replaces anything by U+FFFD. -/
+theorem quoteToASCII_ascii (s : List UInt8) : ∀ c ∈ quoteToASCII s, c.toNat < 128 :=
+  quoteToASCII_lt s
+
+/-- … in fact printable: no control byte, no DEL -/
+theorem quoteToASCII_printable (s : List UInt8) : ∀ c ∈ quoteToASCII s, 0x20 ≤ c.toNat ∧ c.toNat ≤ 0x7E := by
+  intro c hc
+  simp only [quoteToASCII, List.mem_cons, List.mem_append, List.not_mem_nil, or_false] at hc
+  rcases hc with rfl | hc | rfl
+  · decide
+  · exact quoteBody_ascii s.length s (Nat.le_refl _) c hc
+  · decide
+
+/-- **The quoted form determines the string**: two byte strings — arbitrary ones, valid UTF-8 or
+not — with the same `strconv.QuoteToASCII` text are equal. -/
+theorem quoteToASCII_injective {s₁ s₂ : List UInt8} (h : quoteToASCII s₁ = quoteToASCII s₂) : s₁ = s₂ :=
+  quoteToASCII_inj h
+
+/-- non-vacuity, and the F32 pair: `a\xffb` and `a\xfeb` are quoted differently, an invalid byte
+and the well-formed U+FFFD are quoted differently (`\xff` / `\ufffd`) -/
+example : quoteToASCII [0x61, 0xFF, 0x62] = ascii "\"a\\xffb\"" ∧
+    quoteToASCII [0x61, 0xFE, 0x62] = ascii "\"a\\xfeb\"" ∧
+    quoteToASCII [0xEF, 0xBF, 0xBD] = ascii "\"\\ufffd\"" ∧
+    quoteToASCII [0xC3, 0xA9, 0x22, 0x0A, 0xF0, 0x9F, 0x98, 0x80] =
+      ascii "\"\\u00e9\\\"\\n\\U0001f600\"" := by decide
+
+/-- the shape of a payload: its keys and the kinds of its values — what the source text of a
+command fixes (`Gts.Gen.Cli` `Tuple.key / form / prov`), whatever the arguments are -/
+def shape (p : Payload) : List (List UInt8 × Kind) := p.map fun t => (t.1, t.2.kind)
+
+/-- **The encoded payload determines the payload**: `encodePayload p₁ = encodePayload p₂ → p₁ = p₂`,
+for ALL lists of tuples over the value kinds that occur (string, `[]string`, bool, integer,
+`[]byte`) — in particular for two payloads of one command, which have the same keys and the same
+value kinds (`encodePayload_injective_shape`); no shape hypothesis is needed, because the encoding
+is self-delimiting and the first two bytes of a value tell its kind (a quoted string starts `"\"`,
+base64 never contains a backslash).  Two runs with different option values, different list
+elements, a different element ORDER, or strings that differ in any byte have different key bytes. -/
+theorem encodePayload_injective {p₁ p₂ : Payload} (h : encodePayload p₁ = encodePayload p₂) : p₁ = p₂ :=
+  (encodePayload_prefix p₁ p₂ [] [] (by rw [List.append_nil, List.append_nil]; exact h)).1
+
+/-- the statement for two payloads of the same shape (same keys, same value kinds, position by
+position): what `hkey` needs within one command -/
+theorem encodePayload_injective_shape {p₁ p₂ : Payload} (_ : shape p₁ = shape p₂)
+    (h : encodePayload p₁ = encodePayload p₂) : p₁ = p₂ := encodePayload_injective h
+
+/-- … and the encoding determines the shape -/
+theorem encodePayload_shape {p₁ p₂ : Payload} (h : encodePayload p₁ = encodePayload p₂) :
+    shape p₁ = shape p₂ := by rw [encodePayload_injective h]
+
+/-- the key of the F32 witness: `gts rotate` with the locator `a\xffb` … -/
+def f32a : Payload :=
+  [(ascii "command", .str (ascii "gts-rotate")), (ascii "locator", .str [0x61, 0xFF, 0x62]),
+   (ascii "filetype", .int 0)]
+/-- … and with `a\xfeb` -/
+def f32b : Payload :=
+  [(ascii "command", .str (ascii "gts-rotate")), (ascii "locator", .str [0x61, 0xFE, 0x62]),
+   (ascii "filetype", .int 0)]
+
+/-- non-vacuity of `encodePayload_injective_shape`: the two payloads have one shape, they differ,
+and so do their encodings -/
+example : shape f32a = shape f32b ∧ f32a ≠ f32b ∧ encodePayload f32a ≠ encodePayload f32b := by decide
+
+/-- what the encoder writes for a payload with every kind of value -/
+example : encodePayload [(ascii "k", .strs [ascii "a\"", [0xFF]]), (ascii "b", .bool true),
+      (ascii "i", .int (-12)), (ascii "d", .bytes [1, 2, 3, 4, 255])] =
+    ascii "[[\"\\\"k\\\"\",[\"\\\"a\\\\\\\"\\\"\",\"\\\"\\\\xff\\\"\"]],[\"\\\"b\\\"\",true],[\"\\\"i\\\"\",-12],[\"\\\"d\\\"\",\"AQIDBP8=\"]]" := by
+  decide
+
+/-- **The encoder before 1c2c272 was NOT injective** (F32): `json.Marshal` applied to the raw
+tuples writes every invalid UTF-8 byte as `\ufffd`, so the two payloads `f32a` / `f32b` — one
+command, one shape, locators `a\xffb` and `a\xfeb` — had the same key bytes, and the second run
+replayed the first run's output.  (Full statement that fails: `∀ p₁ p₂, jsonOfPayload p₁ =
+jsonOfPayload p₂ → p₁ = p₂`.) -/
+theorem old_encoding_not_injective :
+    ¬ (∀ p₁ p₂ : Payload, shape p₁ = shape p₂ → jsonOfPayload p₁ = jsonOfPayload p₂ → p₁ = p₂) := by
+  intro h
+  exact absurd (h f32a f32b (by decide) (by decide)) (by decide)
+
+/-- the shared key text of the witness -/
+example : jsonOfPayload f32a = jsonOfPayload f32b ∧
+    jsonOfPayload f32a =
+      ascii "[[\"command\",\"gts-rotate\"],[\"locator\",\"a\\ufffdb\"],[\"filetype\",0]]" := by
+  decide
+
+end encoding
+
+/-! ### `hkey` from its parts -/
+
+/-- the parts of `hkey`, for a world whose payload bytes are `encodePayload` of a list of tuples
+`pl c` (the tuples of the command's `encodePayload([]tuple{…})` call, values filled in) -/
+structure KeyParts (pl : Cmd → KeyEnc.Payload) : Prop where
+  /-- the payload handed to `TryCache` is io.go `encodePayload` of the tuples -/
+  henc : ∀ c, W.payload c = KeyEnc.encodePayload (pl c)
+  /-- **determinism**: the command body is a function of the BYTES of the primary input -/
+  hdet : ∀ c i i', W.content i = W.content i' → W.exec c i = W.exec c i'
+  /-- **sufficiency of the payload**: the command body depends on the command line and on the
+  secondary inputs only through the values of the payload tuples (the syntactic half is
+  `payload_complete` / `secondary_digest_raw` / `payload_value_forms` on the generated table) -/
+  hsuff : ∀ c c' i, pl c = pl c' → W.exec c i = W.exec c' i
+  /-- **no collision** of the digest on the payloads in play … -/
+  hcollP : ∀ c c', W.H (W.payload c) = W.H (W.payload c') → W.payload c = W.payload c'
+  /-- … and on the primary inputs in play -/
+  hcollC : ∀ i i', W.H (W.content i) = W.H (W.content i') → W.content i = W.content i'
+
+/-- **`hkey` is a consequence of determinism, sufficiency of the payload tuples, injectivity of the
+encoding (a theorem: `encodePayload_injective`) and collision-freeness of the digest on the keys in
+play.** -/
+theorem hkey_of_parts {pl : Cmd → KeyEnc.Payload} (hp : KeyParts W pl) :
+    ∀ c c' i i', W.rsum i = W.rsum i' → W.dsum c = W.dsum c' → W.exec c i = W.exec c' i' := by
+  intro c c' i i' hr hd
+  have hc : W.content i = W.content i' := hp.hcollC i i' hr
+  have hb : W.payload c = W.payload c' := hp.hcollP c c' hd
+  rw [hp.henc c, hp.henc c'] at hb
+  rw [hp.hdet c i i' hc]
+  exact hp.hsuff c c' i' (encodePayload_injective hb)
+
+/-- the hypotheses of transparency from the parts -/
+theorem hyp_of_parts {pl : Cmd → KeyEnc.Payload} (hH : ∀ x, (W.H x).length = W.d)
+    (hcodec : ∀ w, W.inflate (W.deflate w) = some w) (hp : KeyParts W pl)
+    (hcommit : ∀ c i, (W.exec c i).committed = true → (W.exec c i).status = 0) : Hyp W :=
+  ⟨hH, hcodec, hkey_of_parts W hp, hcommit⟩
+
+/-- **Transparency with `hkey` taken apart**: for all histories from a directory satisfying the
+invariant, every run shows the bytes and the status of the command body — under the digest size,
+the codec round trip, `Commit` only on success, and the three parts of `KeyParts` (determinism,
+sufficiency of the payload tuples, no digest collision on the keys in play); that the key BYTES
+determine the tuples is no longer assumed. -/
+theorem transparent_of_parts {pl : Cmd → KeyEnc.Payload} (hH : ∀ x, (W.H x).length = W.d)
+    (hcodec : ∀ w, W.inflate (W.deflate w) = some w) (hp : KeyParts W pl)
+    (hcommit : ∀ c i, (W.exec c i).committed = true → (W.exec c i).status = 0)
+    (runs : List (Run Cmd Input)) {σ : Store} (hi : Inv W σ) :
+    (history W σ runs).2 = runs.map fun r => (W.exec r.cmd r.input).observed :=
+  transparent W (hyp_of_parts W hH hcodec hp hcommit) runs hi
+
+/-- the tuples of the toy command `(invert, fail)` -/
+def encTuples (c : Bool × Bool) : KeyEnc.Payload :=
+  [(KeyEnc.ascii "invert", .bool c.1), (KeyEnc.ascii "fail", .int (if c.2 then 7 else 0))]
+
+/-- the toy world with the real encoder: the payload bytes are `encodePayload` of the tuples -/
+def encWorld : World (Bool × Bool) Unit :=
+  { toyWorld true false with payload := fun c => KeyEnc.encodePayload (encTuples c) }
+
+/-- non-vacuity of `hkey_of_parts` / `transparent_of_parts`: the toy world with the real encoder
+meets every part (the four commands have four different data sums under the toy digest) -/
+theorem encWorld_parts : KeyParts encWorld encTuples where
+  henc := fun _ => rfl
+  hdet := fun _ _ _ _ => rfl
+  hsuff := by
+    intro c c' i h
+    have : c = c' := by
+      rcases c with ⟨a, b⟩; rcases c' with ⟨a', b'⟩
+      revert h; cases a <;> cases b <;> cases a' <;> cases b' <;> decide
+    rw [this]
+  hcollP := by
+    intro c c' h
+    have : c = c' := by
+      rcases c with ⟨a, b⟩; rcases c' with ⟨a', b'⟩
+      revert h; cases a <;> cases b <;> cases a' <;> cases b' <;> decide
+    rw [this]
+  hcollC := fun _ _ _ => rfl
+
+/-- … and a three-run history over it (base, inverted, base) is transparent -/
+example : (history encWorld emptyStore [toyRun false false, toyRun true false, toyRun false false]).2
+    = [toyRun false false, toyRun true false, toyRun false false].map
+        fun r => (encWorld.exec r.cmd r.input).observed :=
+  transparent_of_parts encWorld C13.toyH_size (fun _ => rfl) encWorld_parts
+    (by
+      intro c i h
+      rcases c with ⟨a, b⟩
+      cases b <;> simp_all [encWorld, toyWorld, toyExec])
+    _ (inv_empty _)
 
 end Gts.C14
